@@ -40,13 +40,15 @@ def handle (l : String) : String :=
     match evs.mapM parseEv with
     | none => "bad-op\tagree"
     | some es =>
+      -- a history the Spec rejects is a violation whatever the Go-side judge said; if the Spec accepts it and the
+      -- Go-side judge did not, the two judges differ (reported as broken correspondence)
       match judge es.toArray with
       | none => verdict "ok" go true ""
-      | some why => verdict ("reject " ++ why) go false why
+      | some why => "reject " ++ why ++ "\tspec-reject:" ++ why
   | ["st", a, b, c] =>
     match parseIds a, parseIds b, parseIds c with
     | some live, some sc, some ib =>
-      if judgeState live sc ib then verdict "ok" go true "" else verdict "reject state" go false "state"
+      if judgeState live sc ib then verdict "ok" go true "" else "reject state\tspec-reject:state"
     | _, _, _ => "bad-op\tagree"
   | _ => "bad-op\tagree"
 
